@@ -91,6 +91,7 @@ type Env struct {
 	nq    *int
 	this  *SV
 	inOld bool            // evaluating under old(...): parameters denote their entry values
+	retFrame *Frame // postconditions on the body: the frame at the return statement (for final(x))
 	bound map[string]bool // names bound by quantifiers / pure-function parameters: never resolved as program variables
 }
 
@@ -1065,6 +1066,23 @@ func (env *Env) evalCall(x *ECall) SV {
 		vc.declareFun(key, []*Sort{sortInt}, sortBool)
 		a := arg(0).V
 		return SV{And(Not(Eq(ifaceTag(a), IntLit(0))), App(sortBool, key, ifaceTag(a))), types.Typ[types.Bool]}
+	case "final":
+		// final(x): the value the function's local variable x holds where it returns (its zero value on paths that
+		// never assigned it). Only meaningful in postconditions, which are then checked on the body only.
+		id, ok := x.Args[0].(*EIdent)
+		if !ok || env.retFrame == nil {
+			specFail("final(<local variable>) is only available in postconditions checked on the function's own body")
+		}
+		e2 := *env
+		e2.frame = env.retFrame
+		e2.loop = nil
+		if v, ok := vc.localByName(&e2, id.Name); ok {
+			return v
+		}
+		if lt := localType(env.retFrame.fn, id.Name); lt != nil {
+			return SV{vc.eng.st.Zero(vc.eng.st.SortOf(lt)), lt}
+		}
+		specFail("final: %s has no local variable %s", env.retFrame.fn.Name(), id.Name)
 	case "kvsum":
 		return SV{vc.kvSum(env.st), ti}
 	case "txncount":
@@ -1426,6 +1444,20 @@ func findGo(fn *ssa.Function, ord string) *ssa.Go {
 					return g
 				}
 				n++
+			}
+		}
+	}
+	return nil
+}
+
+// localType: the declared type of the source-level local variable called name (from the debug information).
+func localType(fn *ssa.Function, name string) types.Type {
+	for _, b := range fn.Blocks {
+		for _, ins := range b.Instrs {
+			if d, ok := ins.(*ssa.DebugRef); ok {
+				if o := d.Object(); o != nil && o.Name() == name {
+					return o.Type()
+				}
 			}
 		}
 	}
